@@ -160,14 +160,14 @@ Proof. exact scanner_finishes_before_fix_iff. Qed.
 (* ... which fails for the text of findings/pre-fix/D18-scanner-goroutine-left.json *)
 Theorem C12_scanner_always_finishes_refuted_before_fix :
   exists src : list Z, forall (fparse : list Z -> option Z) (crank : val -> val -> option comparison),
-  ~ scanner_finishes (length (lex src)) (consumed_before_fix fparse crank src) queue_size.
+  ~ scanner_finishes (length (lex src)) (consumed_before_fix fparse crank src) 16.
 Proof. exact scanner_finishes_refuted_before_fix. Qed.
 
 Example C12_ex_d18 :
   d18_source = zs "[1 2, 3, 4, 5, 6, 7, 8, 9, 10, 11, 12, 13, 14, 15, 16, 17](List)" /\
   length (lex d18_source) = 38 /\ consumed_before_fix (fun _ => None) (default_crank []) d18_source = 3 /\
   parse_source (fun _ => None) (default_crank []) d18_source = PSyntax (mkTok TInteger [50%Z] 1 4) /\
-  consumed_with_drain (fun _ => None) (default_crank []) d18_source = Some 38 /\ queue_size = 16.
+  consumed_with_drain (fun _ => None) (default_crank []) d18_source = Some 38 /\ (1 <=? queue_size) = true.
 Proof. repeat split; vm_compute; reflexivity. Qed.
 
 (* what the parser itself consumes: everything for a value (EOF read: done_), the Error token for an illegal
